@@ -265,4 +265,80 @@ Proof.
   rewrite Er1 in Ru, Hb. split; [exact Hb|]. rewrite Epu. exact (oob_agree _ u _ HO Ru).
 Qed.
 
+(* ---------- "x/../y?q#f" ---------- *)
+Lemma removelast_prefix_no_qh (P : list (list N)) :
+  forallb no_qh (flat_map (fun s => 47 :: s) P) = true ->
+  forallb no_qh (flat_map (fun s => 47 :: s) (removelast P)) = true.
+Proof.
+  intros H. destruct (rev P) as [|x r] eqn:Er.
+  - assert (P = []) as -> by (rewrite <- (rev_involutive P), Er; reflexivity). reflexivity.
+  - assert (P = rev r ++ [x]) as -> by (rewrite <- (rev_involutive P), Er; reflexivity).
+    rewrite removelast_last. rewrite flat_map_snoc, forallb_app in H. apply andb_true_iff in H. tauto.
+Qed.
+
+Theorem class_rel_path input b sb : usv_list input -> related dbg shs b sb ->
+  spec_base_ok sb = true -> in_class_rel_path sb input = true ->
+  exists su, spec_basic_url_parse shp input (Some sb) = BDone su /\ spec_base_ok su = true
+    /\ agree_rel_strict dbg shs (parse_url dbg hp hpo hd ovr (Some b) input) (BDone su).
+Proof.
+  intros Hu R Hbok Hc. unfold in_class_rel_path in Hc.
+  apply andb_true_iff in Hbok. destruct Hbok as [Hcan HnsP].
+  apply andb_true_iff in Hc. destruct Hc as [Hc Hok]. apply andb_true_iff in Hc. destruct Hc as [Hc Hsch].
+  apply andb_true_iff in Hc. destruct Hc as [H1 H2].
+  assert (has_opaque_path sb = false) as Hop by (destruct (has_opaque_path sb); [discriminate | reflexivity]).
+  assert (is_special_scheme (su_scheme sb) = false) as Hnsp
+    by (destruct (is_special_scheme (su_scheme sb)); [discriminate | reflexivity]).
+  assert (spec_scheme (spec_clean input) = None) as Hs by (destruct (spec_scheme (spec_clean input)); [discriminate | reflexivity]).
+  destruct (spec_clean input) as [|c t] eqn:Ecl; [discriminate Hok|].
+  apply andb_true_iff in Hok. destruct Hok as [Hok Hsp]. apply andb_true_iff in Hok. destruct Hok as [Hok E35].
+  apply andb_true_iff in Hok. destruct Hok as [E47 E63]. apply negb_true_iff in E47, E63, E35.
+  set (P := path_segments sb) in *.
+  exists (rel_path_result sb (removelast P) (c :: t)).
+  assert (spec_basic_url_parse shp input (Some sb) = BDone (rel_path_result sb (removelast P) (c :: t))) as HS.
+  { apply spec_parse_of_runs. rewrite Ecl.
+    pose proof (runs_rel_path shp (c :: t) sb Hop Hnsp c t eq_refl Hs E47 E63 E35) as K. exact K. }
+  split; [exact HS|].
+  (* the model *)
+  pose proof (rel_wf _ _ _ _ R) as W. pose proof (path_start_le_len b W) as Lps.
+  set (pre := nfirstn (path_start b) (ser b)).
+  assert (nlen pre = path_start b) as Lpre by (apply nlen_nfirstn; exact Lps).
+  destruct (related_pre dbg shs b sb R) as [Ebq _]. fold pre in Ebq.
+  assert (serialize_path sb = flat_map (fun s => 47 :: s) P) as EPth.
+  { unfold serialize_path, P, path_segments. unfold has_opaque_path in Hop. destruct (su_path sb); [discriminate Hop | reflexivity]. }
+  rewrite EPth in Ebq.
+  assert (forallb no_qh (flat_map (fun s => 47 :: s) P) = true) as HqhP.
+  { pose proof (qf_facts_of b W) as (_ & _ & _ & Q4 & _).
+    pose proof (before_query_path_end b W) as E. rewrite Ebq in E.
+    destruct (wf_ps_le_path_end b W) as [L1 L2].
+    assert (nfirstn (path_end b - path_start b) (nskipn (path_start b) (ser b)) = flat_map (fun s => 47 :: s) P) as EE.
+    { rewrite <- (nfirstn_nskipn (path_start b) (nfirstn (path_end b) (ser b))) in E.
+      rewrite nfirstn_nfirstn in E by lia. fold pre in E. apply app_inv_head in E. rewrite E.
+      unfold nskipn, nfirstn. rewrite N2Nat.inj_sub. rewrite firstn_skipn_comm.
+      replace (N.to_nat (path_start b) + (N.to_nat (path_end b) - N.to_nat (path_start b)))%nat with (N.to_nat (path_end b)) by lia.
+      reflexivity. }
+    rewrite EE in Q4. exact Q4. }
+  rewrite spec_clean_is_ntnl_trim in Ecl. set (l0 := input_new_trim_c0 input) in *.
+  assert (usv_list l0) as Hul0 by (apply usv_trim; exact Hu).
+  destruct (inp_next_some l0 c t Ecl) as (r1 & En & Er1 & _).
+  assert (parse_url dbg hp hpo hd ovr (Some b) input = arm_expr dbg ovr b (Bs pre (removelast P)) l0) as Epu.
+  { rewrite (parse_url_relative dbg hp hpo hd ovr b input c t
+               (related_not_cbb dbg shs b sb R Hop) (related_not_special dbg shs b sb R Hnsp) Ecl Hs E35).
+    fold l0. unfold parse_relative, inp_split_first. rewrite En. rewrite E63, E35, E47.
+    cbn [orb st_is_special andb]. rewrite andb_false_r. rewrite Ebq, <- Lpre.
+    rewrite (pop_path_segments pre P HnsP). cbn [pbind].
+    rewrite (related_not_special dbg shs b sb R Hnsp). cbn [st_is_special orb].
+    rewrite inp_is_empty_ntnl, Ecl. cbn [negb].
+    rewrite match47, E47. unfold arm_expr. rewrite <- Lpre.
+    destruct P as [|p0 Pr] eqn:EP.
+    - rewrite N.eqb_refl. cbn [andb removelast].
+      assert (Bs pre [] = pre ++ [47]) as -> by (unfold Bs; cbn [segs_text map concat]; apply app_nil_r).
+      reflexivity.
+    - pose proof (Bs_len_ge pre (removelast (p0 :: Pr))) as Lb.
+      replace (nlen (Bs pre (removelast (p0 :: Pr))) =? nlen pre) with false by lia. cbn [andb]. reflexivity. }
+  rewrite <- Ecl in Hsp.
+  destruct (path_arm_related dbg hp hpo ovr shp shs b sb (removelast P) l0 R Hop Hnsp Hcan Hul0
+              (no_slash_removelast P HnsP) (removelast_prefix_no_qh P HqhP) Hsp) as (u & HO & Ru & Hb).
+  fold pre in HO. rewrite Ecl in Ru, Hb. split; [exact Hb|]. rewrite Epu. exact (oob_agree _ u _ HO Ru).
+Qed.
+
 End RelClasses.
